@@ -159,6 +159,24 @@ JOBS += [
                     '__builtin_ia32_punpcklbw128.0:9', '__builtin_ia32_psrldqi128.0:17'], **AVX),
 ]
 JOBS[-1]['bound'] = 'count 0..130, all input bytes in {0,1} (documented kernel domain)'
+# dictionary gathers: every load of indices in [0,count), every store in output[0,count), value == dict[indices[k]]
+IA32G = 'stubs/ia32_model.c: C models of gathersiv8si/4di (AVX2), gathersiv16si/8di, loaddqu{si,di}512_mask, storedqu{si,di}512_mask (masked-off elements not accessed; signed 32-bit index) (A6; validated natively)'
+GUNW = ['__builtin_ia32_gathersiv16si.0:17', '__builtin_ia32_gathersiv8di.0:9', '__builtin_ia32_gathersiv8si.0:9', '__builtin_ia32_gathersiv4di.0:5',
+        '__builtin_ia32_loaddqusi512_mask.0:17', '__builtin_ia32_storedqusi512_mask.0:17', '__builtin_ia32_loaddqudi512_mask.0:9',
+        '__builtin_ia32_storedqudi512_mask.0:9']
+KUNW = {'avx512': {'i32': [4, 3, 9], 'i64': [7, 9]}, 'avx2': {'i32': [7, 9], 'i64': [12, 5]}}
+for isa, define in (('avx512', '__AVX512F__=1'), ('avx2', '__AVX2__=1')):
+    for t in ('i32', 'i64', 'float', 'double'):
+        base = {'float': 'i32', 'double': 'i64'}.get(t, t)
+        fns = ['carquet_%s_gather_%s' % (isa, t)] + (['carquet_%s_gather_%s' % (isa, base)] if base != t else [])
+        d = dict(AVX)
+        d.update(name='c15_%s_gather_%s_bounded' % (isa, t), entry='h_%s_gather_%s_bounded' % (isa, t), harness='harness/C15/%s.c' % isa,
+                 defines=[define], functions=fns, trusted=[IA32, IA32X, IA32G],
+                 unwindset=['carquet_%s_gather_%s.%d:%d' % (isa, base, i, b) for i, b in enumerate(KUNW[isa][base])] +
+                           ['h_%s_gather_%s_bounded.0:42' % (isa, t)] + GUNW,
+                 unwind=45,   # net for loops a changed kernel may have beyond the listed ones
+                 bound='count 0..40, dictionary of 1..64 entries, all indices < entries, all data')
+        JOBS.append(d)
 
 # ---- status after validation (ok on /repo AND a deliberate breakage of the function detected) -----
 VALIDATED = set("""
